@@ -3,15 +3,17 @@
 Every candidate is executed on fresh node(s), so leftover state cannot fool it.
 """
 import copy
+import time
 
 
 class Budget(object):
-    def __init__(self, n):
+    def __init__(self, n, deadline=None):
         self.left = n
         self.used = 0
+        self.deadline = deadline
 
     def take(self):
-        if self.left <= 0:
+        if self.left <= 0 or (self.deadline is not None and time.time() > self.deadline):
             return False
         self.left -= 1
         self.used += 1
@@ -73,9 +75,9 @@ def simpler_events(ev):
     return out
 
 
-def minimise(execute_and_match, run, budget_n=300):
+def minimise(execute_and_match, run, budget_n=300, deadline=None):
     """execute_and_match(run) -> bool (same violation class still present)."""
-    budget = Budget(budget_n)
+    budget = Budget(budget_n, deadline)
     base = copy.deepcopy(run)
 
     def test(evs):
